@@ -89,7 +89,8 @@ impl<const N: usize> Clone for ServerUser<N> {
     fn clone(&self) -> (r: Self) ensures r == *self { unimplemented!() }
 }
 /// R20: the salt replay cache (Mutex<LruCache> reached through &Context) as a ghost token threaded through the decode path:
-/// the set of salts the cache holds.  ASSUMED: try_lock succeeds (contention is a concurrency effect, C09), no expiry/eviction inside one call.
+/// the set of salts the cache holds.  ASSUMED: what the Mutex guarantees - one critical section at a time (lookup / test-and-insert are each
+/// one critical section since /repo a8d1336); no expiry/eviction inside one call.
 pub tracked struct SaltCache { pub ghost salts: Set<Seq<u8>> }
 /// tcp.rs Context::{check_nonce,set_nonce}: contracts over the token, bodies NOT verified
 impl<const N: usize> Context<N> {
@@ -99,8 +100,10 @@ impl<const N: usize> Context<N> {
         ensures r == old(vcache).salts.contains(nonce@), *final(vcache) == *old(vcache)
     { unimplemented!() }
     #[verifier::external_body]
-    fn set_nonce(&self, nonce: [u8; N], Tracked(vcache): Tracked<&mut SaltCache>)
-        ensures final(vcache).salts == old(vcache).salts.insert(nonce@)
+    fn set_nonce(&self, nonce: [u8; N], Tracked(vcache): Tracked<&mut SaltCache>) -> (r: bool)
+        ensures final(vcache).salts == old(vcache).salts.insert(nonce@),
+            // test-and-set in one critical section: true exactly when the salt was not there
+            r == !old(vcache).salts.contains(nonce@),
     { unimplemented!() }
 }
 impl<const N: usize> Default for Identity<N> {
@@ -827,7 +830,9 @@ impl<const N: usize> AEADCipherCodec<N> {
                 } })); /*>H*/
         }
         if _src.remaining() >= length + tag_size {
-            context.set_nonce(salt, Tracked(vcache));
+            if !context.set_nonce(salt, Tracked(vcache)) {
+                return Err(verif_err());
+            }
             let position = _src.position();
             let src = _src.into_inner();
             src.advance(position as usize);
